@@ -11,7 +11,10 @@ Streams (`kind`):
                requested parameter and enumerates all chains
   sb           simplify with the built-in criteria 4, 5, 6 on planar tracks (the module's own cost function, tolerance as
                global parameter)
-  stops        findStopsGlobal: the oracle recomputes the reward matrix from the track with exact rational geometry
+  stops        findStopsGlobal from the caller's arguments (track with altitudes, diameter, duration, downsampling, call form): the
+               oracle recomputes the DOCUMENTED reward (enclosing circle in the plane, duration) from the track — the resampled one
+               when downsampling > 1 — with exact rational geometry, demands that matrix, an optimal answer and returned stops that
+               realise the optimum; findStopsGlobalForRTK: delegation and matrix correspondence only
 """
 import sys, itertools, math, json, os
 from fractions import Fraction
@@ -207,11 +210,20 @@ class P(Prop):
         ("TracklibVerif.Props.C12", "TV.C12.stops_matrix", "the row loops of stop detection with break + C + C.T put stopsReward(a,b) at a<b: (b-a)^2 iff the break test holds for no earlier end point, the continue test does not hold and the size is computed and admitted; symmetric"),
         ("TracklibVerif.Props.C12", "TV.C12.stops_documented", "findStopsGlobal's tests (026cb79): the reward of (a,b) is (b-a)^2 exactly when every end point is within diameter of p_a, duration <= t(p_{b-1}) - t(p_a) and minCircle gives a circle with 2r <= diameter (inclusive, as documented); 0 otherwise"),
         ("TracklibVerif.Props.C12", "TV.C12.stops_optimal", "T3: the segmentation computed inside findStopsGlobal maximises the summed stopsReward (= the documented criterion, stops_documented) over all chains 0..size-2"),
+        ("TracklibVerif.Props.C12", "TV.C12.stops_planimetric", "findStopsGlobal(track, diameter, duration, downsampling) from the caller's arguments (findStopsGlobalPy: matrix, segmentation, final filter, identifiers) is the same for two tracks that agree on x, y and the times: the altitude (large variations, NaN) is never read"),
+        ("TracklibVerif.Props.C12", "TV.C12.stops_criterion", "T3: with the tests read from the track (planimetric distance2DTo) and a minCircle whose circles enclose their segment in the plane, the reward matrix IS the documented one (0 if the circle is > diameter, 0 if the duration is < duration, (b-a)^2 otherwise): the row loop's early exit removes no documented reward, because two points of a disc are at most a diameter apart in the plane"),
+        ("TracklibVerif.Props.C12", "TV.C12.stops_negative_diameter", "a negative diameter is exceeded by every distance: the reward matrix is zero"),
+        ("TracklibVerif.Props.C12", "TV.C12.stops_fit_in_circle", "T3: if minCircle's circle is moreover minimal, the reward of (a,b) is (b-a)^2 exactly when the segment lasts at least duration and its observations fit in SOME disc of diameter <= diameter (no reference to minCircle's answer), 0 otherwise"),
+        ("TracklibVerif.Props.C12", "TV.C12.stops_track_optimal", "T3: under stops_criterion's hypotheses the segmentation maximises the summed DOCUMENTED reward over all chains 0..size-2"),
+        ("TracklibVerif.Props.C12", "TV.C12.stops_final_filter", "the final filter of findStopsGlobal (None circle, radius > diameter/2, duration() < duration) is the documented test with the same inclusive boundaries"),
+        ("TracklibVerif.Props.C12", "TV.C12.find_stops_global", "T3: findStopsGlobal(track, diameter, duration, downsampling) returns, as (id_ini, id_end, nb_points) = (a*downsampling, (b-1)*downsampling, b-a), exactly the segments admitted by the documented criterion of a chain that maximises the summed documented reward on the track it works on (the resampled copy when downsampling > 1)"),
     ]
     partial = []
     open_statements = [
         "IEEE doubles: optimal_bracketed / optimal_rounded are proved for an abstract rounded addition (monotone, relative error u, no associativity); that binary64 addition satisfies these hypotheses (no NaN, no overflow, u = 2^-53) is assumed, not proved in Lean (Float is opaque), and is what the transfer check on doubles samples, with the same tolerance shape and the generous constant 1e-9",
-        "findStopsGlobal: distances, durations and circle diameters are parameters of the model (it applies the three threshold tests itself, stopPredGlobal); the check computes them with exact rational geometry, except the entries where tracklib's minCircle returns None (recorded from the run) and circles through >= 3 distinct fixes whose exact diameter equals the limit (doubles decide: read off the run)",
+        "findStopsGlobal: the model (findStopsGlobalPy) reads the observations (x, y, z, t), computes the squared planimetric distances and the durations itself and applies the three tests, the final filter and the identifiers; minCircle (Welzl, randomised) and the temporal resampling `track ** (size/downsampling)` remain parameters: the check computes the circles with exact rational geometry — except the entries where tracklib's minCircle returns None (recorded from the run) and circles through >= 3 distinct fixes whose exact diameter equals the limit (doubles decide: read off the run) — and takes the resampled track from tracklib; that minCircle's circle encloses its segment and is minimal (hypotheses hc / hmin of stops_criterion, stops_fit_in_circle) is not proved about tracklib's Welzl implementation",
+        "findStopsGlobal with downsampling > 1: coordinates and times of the resampled track are interpolated doubles on which the code's own doubles (sqrt of a rounded sum, circumcentre, difference of absolute times) are not exact; a case with a value within 1e-9 of a threshold is not judged (tagged in the input histogram). Lengths are compared through their squares in the model (exact for the integer / dyadic tracks generated)",
+        "findStopsGlobal on a track where every altitude of a reported stop is NaN raises ZeroDivisionError (the AVERAGER of no value) after the segmentation was computed: class '%s'; tracks where that can happen are generated once the class is listed in known_findings.json (findings/C12.json)" % FINDING_NANZ,
         "findStopsGlobal: when tracklib's minCircle returns None for a segment (three collinear boundary points met in some random orders of Welzl's algorithm) the code writes reward 0 where the documented criterion rewards the segment; the model has this case (`small = none`), the oracle demands the optimum of the DOCUMENTED criterion and reports the loss (class '%s')" % FINDING_MINCIRCLE,
         "findStopsGlobalForRTK (outside the property's anchors): its tests are still exclusive (`<= duration`, `< std_max`) and its source comment documents a factor 0.33 under the root that the code does not have; only the delegation and the correspondence of its matrix construction are checked",
         "simplify's built-in cost functions (modes 4-6: minimum bounding rectangle geometry) are a parameter of the model; the check evaluates the module's own functions with the requested tolerance",
@@ -221,7 +233,10 @@ class P(Prop):
                 "positional arguments, defaults, TypeError), the two loops filling the matrix, C + C.T, degenerate track sizes; "
                 "simplification.optimalSimplification (parameter and direction forwarded, b8f1113), simplify() modes 4-8; findStopsGlobal's and "
                 "findStopsGlobalForRTK's reward matrix (row loops with break/continue, thresholds as written, C + C.T), their call of "
-                "optimalPartition(MAXIMIZE) and findStopsGlobal's final filter; geometry, clock and the built-in cost functions are parameters")
+                "optimalPartition(MAXIMIZE); findStopsGlobal from the caller's arguments (findStopsGlobalPy): choice of the track "
+                "(downsampling > 1: the resampled copy), planimetric distance2DTo and elapsed time read from the observations (x, y, z, t), "
+                "the three tests, the final filter, id_ini / id_end / nb_points (multiplied by downsampling), errors on tracks of 0..2 "
+                "observations; minCircle, the temporal resampling, the RTK variant's geometry and simplify's built-in cost functions are parameters")
     rule = ("all {0,1,2}-valued symmetric matrices over N <= 4 (quick) / <= 5 (thorough) candidates and all {0,1}-valued for N = 6 (thorough), "
             "both directions; random symmetric matrices up to N = 12 over small integers / dyadic rationals (exact, model at Rat) and over doubles "
             "(model at Float, bit patterns): uniform, gaussian, one-decimal and tie-rich values, 1e300 sentinels, +inf entries, N = 2..3, junk in the "
@@ -231,10 +246,15 @@ class P(Prop):
             "*rest / callable object / not callable, four parametrised families) and global parameters None, 0, 0.0, -0.0, False, numpy zero, "
             "negative, positive, inf, tuples (empty included), positional and keyword call forms, track sizes 0..9, single calls and sequences of "
             "calls on the same track and cost function with changing parameter / direction / entry point; simplify modes 4-6 on planar tracks with "
-            "tolerances 0, 0.0, -0.0, False, numpy zero, positive, negative, inf, None; findStopsGlobal on lattice and dyadic tracks (duplicates, "
-            "collinear points, exact ties with both thresholds) and findStopsGlobalForRTK on dyadic tracks. Oracle: enumeration of all 2^(N-2) chains "
-            "in exact arithmetic on the matrix RECOMPUTED from the cost function and the requested parameter (from the track with exact rational "
-            "geometry, for findStopsGlobal), values compared (ties may pick another chain); doubles: optimum up to 1e-9 x the absolute costs summed "
+            "tolerances 0, 0.0, -0.0, False, numpy zero, positive, negative, inf, None; findStopsGlobal on lattice and dyadic tracks of 3..14 "
+            "observations (duplicates, collinear points, exact ties with both thresholds, diameter 0 or negative) WITH AN ALTITUDE CHANNEL (noise and "
+            "jumps well above the diameter, ramps, constants, NaN), downsampling omitted / 1 / 1.0 / True / 0.5 (the track itself) or 2, 3, 1.5, 1.25 "
+            "(the criterion is read on tracklib's temporal resampling of the track), positional / keyword / default-argument / verbose call forms; "
+            "findStopsGlobalForRTK on dyadic tracks with and without altitudes. Oracle: enumeration of all 2^(N-2) chains "
+            "in exact arithmetic on the matrix RECOMPUTED from the cost function and the requested parameter; for findStopsGlobal the DOCUMENTED "
+            "reward recomputed from the (resampled) track with exact rational PLANIMETRIC geometry — enclosing circle and duration only, no "
+            "distance test — must be the matrix passed down cell by cell, the answer must be optimal for it, and the stops RETURNED (id_ini, id_end) "
+            "must realise that optimum; values compared (ties may pick another chain); doubles: optimum up to 1e-9 x the absolute costs summed "
             "along the answer and along one optimal chain (the shape proved in optimal_rounded). non-trivial = at least 3 candidates, the call "
             "protocol accepted, and for stops a reward matrix that is not zero")
 
@@ -322,7 +342,7 @@ class P(Prop):
             out.append(self.rand_feseq(rng))
         for _ in range(120 if q else 1500):
             out.append(self.rand_sb(rng))
-        for _ in range(120 if q else 1200):
+        for _ in range(400 if q else 4000):
             out.append(self.rand_stops(rng))
         return out
 
